@@ -51,8 +51,8 @@ Qed.
 (* ---------- the specification of an accepted line ---------- *)
 (* a canary of the harness: flagged exactly as canary_expect demands *)
 Definition canary_ok (rid : Z) (mut : list bool) (det conc : bool) (pan : Z) : Prop :=
-  exists em ed ec, canary_expect rid = Some (em, ed, ec) /\ mut = em /\
-    (forall x, ed = Some x -> det = x) /\ (forall x, ec = Some x -> conc = x) /\ pan = 0.
+  exists em ed ec ep, canary_expect rid = Some (em, ed, ec, ep) /\ mut = em /\
+    (forall x, ed = Some x -> det = x) /\ (forall x, ec = Some x -> conc = x) /\ pan = ep.
 
 (* a routine of the table *)
 Definition routine_ok (rid : Z) (mut : list bool) (det conc : bool) (pan : Z) : Prop :=
@@ -107,10 +107,10 @@ Proof.
   destruct (p_line line) as [[[[[[[rid mut] det] conc] pan] idx] rest]|] eqn:P; [|reject H Hc].
   apply p_line_some in P. destruct P as (seed & size & -> & ->).
   exists rid, mut, det, conc, pan, idx, seed, size. split; [reflexivity|].
-  destruct (canary_expect rid) as [[[em ed] ec]|] eqn:CE.
-  - destruct (list_bool_eqb mut em && opt_ok ed det && opt_ok ec conc && (pan =? 0)) eqn:E; [|reject H Hc].
+  destruct (canary_expect rid) as [[[[em ed] ec] ep]|] eqn:CE.
+  - destruct (list_bool_eqb mut em && opt_ok ed det && opt_ok ec conc && (pan =? ep)) eqn:E; [|reject H Hc].
     apply andb_prop in E. destruct E as [E E4]. apply andb_prop in E. destruct E as [E E3]. apply andb_prop in E. destruct E as [E1 E2].
-    left. exists em, ed, ec. split; [exact CE|]. split; [now apply list_bool_eqb_eq|].
+    left. exists em, ed, ec, ep. split; [exact CE|]. split; [now apply list_bool_eqb_eq|].
     split; [now apply opt_ok_sound|]. split; [now apply opt_ok_sound|]. now apply Z.eqb_eq.
   - destruct (find_routine rid) as [r|] eqn:F; [|reject H Hc].
     destruct (Nat.eqb (length mut) (r_nargs r)) eqn:L; cbn [negb] in H; [|reject H Hc].
